@@ -145,6 +145,49 @@ Theorem C14_payload_tlvs_ascending :
   custom_ok (customs_of p) -> strictly_ascending (map fst (payload_tlvs p)) = true.
 Proof. exact payload_ascending. Qed.
 
+(** Instructions: [build_onion_payloads] tells hop [i] to forward over hop [i+1]'s channel exactly the
+    amount and expiry of the HTLC entering hop [i+1]; the recipient is told the final value and
+    [height + final delta], or - behind a blinded tail - the tail's final value and
+    [height + excess_final_cltv_expiry_delta] ([spec], Proofs/C14Payload.v); the first HTLC carries
+    the totals. *)
+Theorem C14_build_payloads_spec :
+  forall (hops : list route_hop) (tail : option blinded_tail) (rf : recipient_fields) (height : Z)
+         (keysend invreq : option bytes),
+  hops <> [] -> Forall hop_ok hops -> (0 <= height)%Z -> (0 <= tail_value tail)%Z ->
+  (0 < rh_fee_msat (last hops (mk_route_hop 0 0 0)) + tail_value tail)%Z ->
+  (V tail hops < MAX_VALUE_MSAT_LIMIT)%Z -> (C height hops < CLTV_LIMIT)%Z ->
+  build_payloads hops tail rf height keysend invreq =
+  Some (spec tail rf height keysend invreq hops, V tail hops, C height hops).
+Proof. exact build_payloads_spec. Qed.
+
+(** Hold times of a claimed payment including PHANTOM receives: [claim_payment_internal]'s attribution
+    data (phantom layer innermost) processed by the hops before the receiving node is read by the
+    sender as their hold times followed by the zero hold times of the receiving node and its phantom hop. *)
+Theorem C14_hold_times_claim :
+  forall (ks : bytes -> nat -> bytes) (hmac : bytes -> bytes -> bytes),
+  (forall k n, List.length (ks k n) = n) ->
+  (forall k m, List.length (hmac k m) = 32) ->
+  forall (before : list (fkeys * Z)) (incoming : fkeys) (phantom : option fkeys),
+  Forall (fun kh => (0 <= snd kh < 2 ^ 32)%Z) before ->
+  exists E,
+    fold_right (fun kh a => Some (process_fulfill ks hmac a (fst kh) (snd kh)))
+               (Some (claim_attribution ks hmac incoming phantom)) before = Some E /\
+    decode_fulfill ks hmac (map fst before ++ map fst (phantom_hops incoming phantom)) E =
+    firstn MAX_HOPS (map snd before ++ map snd (phantom_hops incoming phantom)).
+Proof. exact hold_times_claim. Qed.
+
+(** The failure of a payment received through a phantom hop is the phantom hop's failure re-wrapped by
+    the real node (so [C14_failure_attributed] / [C14_hold_times_failure] cover it with one more hop). *)
+Theorem C14_phantom_failure_chain :
+  forall (ks : bytes -> nat -> bytes) (hmac : bytes -> bytes -> bytes)
+         (incoming : fkeys) (phantom : option fkeys) (code : Z) (d : bytes),
+  local_failure ks hmac incoming phantom code d =
+  match phantom with
+  | Some ph => failure_at_sender ks hmac [(incoming, 0%Z)] ph code d 0%Z
+  | None => failure_at_sender ks hmac [] incoming code d 0%Z
+  end.
+Proof. exact local_failure_chain. Qed.
+
 (** The expressions rs2v regenerates from [onion_utils.rs] on every run are the ones the model uses. *)
 Theorem C14_gen_relay_guard :
   forall p : err_packet,
